@@ -52,7 +52,7 @@ Begin == /\ Is("begin") /\ l' = l + 1 /\ e' = [ev |-> "begin", id |-> 0, line |-
 Pairs(r) ==
   CASE r.mode \in {"full", "ctl", "chan", "delay"} -> Min(Len(obs[r.a]), Len(obs[r.b]))
     [] r.mode = "blocks" -> Min(Len(blk[r.a]), Len(blk[r.b]))
-    [] r.mode = "taus"   -> Min(Len(tau[r.a]), Len(tau[r.b]))
+    [] r.mode \in {"taus", "nearest"} -> Min(Len(tau[r.a]), Len(tau[r.b]))
     [] r.mode = "poly"   -> Min(Len(tau[r.a]), Len(val[r.b]))
     [] OTHER -> 0
 RECURSIVE SumPairs(_)
@@ -168,6 +168,20 @@ TwinTaus ==
   \A r \in rel : (r.mode = "taus" /\ Touches(r)) =>
     \A k \in 1..Min(Len(tau[r.a]), Len(tau[r.b])) : Abs(Diff(tau[r.a][k], tau[r.b][k])) <= 4 + r.c
 
+\* C08, Nearest: "the sample at or just before the instant".  Instance a interpolates linearly (fed the index
+\* signal its outputs ARE the instants), instance b is the Nearest resampler with the same configuration and calls
+\* (its outputs are the indices of the samples it picked): b must pick floor(instant) - an absolute reference
+\* that a shift of the whole Nearest stream by one frame cannot fool.
+NearestOk(ta, tb) ==
+  LET f == ta[2] IN
+  /\ tb[2] = 0
+  /\ IF f <= 8 THEN tb[1] \in {ta[1], ta[1] - 1}              \* the instant is a whole frame (within 1e-5)
+     ELSE IF f >= 1048576 - 8 THEN tb[1] \in {ta[1], ta[1] + 1}
+     ELSE tb[1] = ta[1]
+TwinNearest ==
+  \A r \in rel : (r.mode = "nearest" /\ Touches(r)) =>
+    \A k \in 1..Min(Len(tau[r.a]), Len(tau[r.b])) : NearestOk(tau[r.a][k], tau[r.b][k])
+
 \* C08: instance a is fed the index signal (its outputs are the evaluation instants), instance b
 \* the one-hot signal e_h with identical calls: output k of b must be the cardinal polynomial of
 \* the hot sample's place in the window of instant k, evaluated at the instant's fractional part
@@ -208,6 +222,7 @@ H_TwinDelay == TwinDelay     S_TwinDelay == Soft("TwinDelay", TwinDelay)
 H_TwinBlocks == TwinBlocks   S_TwinBlocks == Soft("TwinBlocks", TwinBlocks)
 H_TwinTaus == TwinTaus       S_TwinTaus == Soft("TwinTaus", TwinTaus)
 H_TwinPoly == TwinPoly       S_TwinPoly == Soft("TwinPoly", TwinPoly)
+H_TwinNearest == TwinNearest S_TwinNearest == Soft("TwinNearest", TwinNearest)
 H_KernelEq == KernelEq       S_KernelEq == Soft("KernelEq", KernelEq)
 H_TwinNear == TwinNear       S_TwinNear == Soft("TwinNear", TwinNear)
 
